@@ -19,7 +19,7 @@ func (C02) ID() string    { return "C02" }
 func (C02) Level() string { return "exploration" }
 func (C02) Runs(t core.Tier) int {
 	if t == core.Thorough {
-		return 2_500_000
+		return 900_000
 	}
 	return 30_000
 }
